@@ -404,25 +404,6 @@ same wrapper of their own element conversion. -/
 def convWrap (inner : Value → Res Value) (v : Value) : Res Value :=
   if v.isMarked then (inner v.unmark).map (·.withMarks v.marks) else inner v
 
-/-! ### Multiply as /repo has it since commit 6d2fa5e
-
-On an unknown or dynamically typed operand: `if val.RawEquals(Zero) ||
-other.RawEquals(Zero) { return Zero }` before the range arithmetic.
-(`Ops2.mulU` still lacks the test; this copy is what it becomes.) -/
-
-/-- `v.RawEquals(cty.Zero)` for an unmarked operand -/
-def rawEqualsZero (v : Value) : Bool :=
-  v.ty.isNumber && (match v.v with | .n x => x.isZero | _ => false)
-
-/-- `cty.Zero` (a 53-bit zero) -/
-def zeroVal : Value := ⟨.number, .n (.fin false 0 0 53)⟩
-
-def mulUC (a b : Value) : Res Value := do
-  match ← typeCheck .number [a, b] with
-  | .none => pure (numVal (← Num.mulCty (← asNum a) (← asNum b)))
-  | _ => if rawEqualsZero a || rawEqualsZero b then pure zeroVal else rangeArith Num.mulCty a b
-def mulC := binMarks mulUC
-
 end Value
 
 /-! ### the operation methods of `cty.Value` that C04 quantifies over -/
@@ -448,7 +429,7 @@ def run : Op → List Value → Res Value
   | .equals, [a, b] => Value.equals a b
   | .add, [a, b] => Value.add a b
   | .sub, [a, b] => Value.sub a b
-  | .mul, [a, b] => Value.mulC a b
+  | .mul, [a, b] => Value.mul a b
   | .div, [a, b] => Value.div a b
   | .mod, [a, b] => Value.mod a b
   | .neg, [a] => Value.neg a
